@@ -211,6 +211,7 @@ def _diff(
     relink: bool = False,
     ignore: Optional["Ignore"] = None,
     old: Union["HashFile", "Tree", None] = None,
+    force: bool = False,
 ):
     if old is None:
         try:
@@ -228,7 +229,10 @@ def _diff(
                 ignore=ignore,
             )
         except FileNotFoundError:
-            pass
+            if not force and fs.exists(path):
+                # something below `path` could not be staged (e.g. a dangling
+                # symlink): without the old listing no removal would be guarded
+                raise
 
     diff = odiff(old, obj, cache)
     if relink:
@@ -385,6 +389,7 @@ def checkout(  # noqa: PLR0913
         relink=relink,
         ignore=ignore,
         old=old,
+        force=force,
     )
 
     failed = []
